@@ -302,107 +302,7 @@ func runC02(c *core.Ctx) core.Meta {
 	}
 
 	// ---------------- R02.2 initial registers mirrored ----------------
-	st2 := c.Rule("R02.2", "the initial scalar-register layout (which enable flag reserves how many bytes and which value is written, in order) and the lane-id registers are the same in emu.ComputeUnit.initWfRegs and cu.WfDispatcherImpl.initRegisters", 15)
-	fe := findFuncDecl(c.Pkg(emuPkg), "ComputeUnit.initWfRegs")
-	ft := findFuncDecl(c.Pkg(cuPkg), "WfDispatcherImpl.initRegisters")
-	if fe == nil || ft == nil {
-		c.Report(core.Finding{Rule: "R02.2", Kind: "anchor", Pkg: emuPkg, Func: "initWfRegs/initRegisters", Detail: "anchor", Msg: "initial-register functions not found"})
-	} else {
-		se, le := summariseInit(c.Pkg(emuPkg), fe)
-		stt, lt := summariseInit(c.Pkg(cuPkg), ft)
-		em := map[string]sgprStep{}
-		var order []string
-		for _, s := range se {
-			em[s.flag] = s
-			order = append(order, s.flag)
-		}
-		tm := map[string]sgprStep{}
-		var orderT []string
-		for _, s := range stt {
-			tm[s.flag] = s
-			orderT = append(orderT, s.flag)
-		}
-		st2.Instances++
-		okOrder := strings.Join(order, ",") == strings.Join(orderT, ",")
-		st2.Ob(okOrder)
-		if !okOrder {
-			c.Report(core.Finding{Rule: "R02.2", Pkg: cuPkg, Func: "WfDispatcherImpl.initRegisters", Detail: "flag-order", Pos: c.Position(ft.Pos()), Msg: fmt.Sprintf("the two modes visit the enable flags in different orders: emu %v, timing %v", order, orderT)})
-		}
-		for _, f := range order {
-			e, t := em[f], tm[f]
-			st2.Instances++
-			if _, has := tm[f]; !has {
-				st2.Ob(false)
-				c.Report(core.Finding{Rule: "R02.2", Pkg: cuPkg, Func: "WfDispatcherImpl.initRegisters", Detail: "flag-missing:" + f, Pos: c.Position(ft.Pos()), Msg: "emulation handles " + f + " but timing does not"})
-				continue
-			}
-			okR := e.reserved == t.reserved
-			st2.Ob(okR)
-			st2.Sample("%s: reserves %d bytes (emu) / %d bytes (timing); value %s / %s", f, e.reserved, t.reserved, e.value, t.value)
-			if !okR {
-				c.Report(core.Finding{Rule: "R02.2", Pkg: cuPkg, Func: "WfDispatcherImpl.initRegisters", Detail: "reserve:" + f, Pos: c.Position(t.pos), Msg: fmt.Sprintf("%s reserves %d bytes of scalar registers in emulation but %d in timing: every later system register lands in a different SGPR in the two modes", f, e.reserved, t.reserved)})
-			}
-			okV := e.value == t.value
-			st2.Ob(okV)
-			if !okV {
-				c.Report(core.Finding{Rule: "R02.2", Pkg: cuPkg, Func: "WfDispatcherImpl.initRegisters", Detail: "value:" + f, Pos: c.Position(t.pos), Msg: fmt.Sprintf("%s writes %q in emulation but %q in timing", f, e.value, t.value)})
-			}
-		}
-		// lane ids
-		norm := func(l []string) []string {
-			var out []string
-			for _, s := range l {
-				out = append(out, s)
-			}
-			sort.Strings(out)
-			return out
-		}
-		ne, nt := norm(le), norm(lt)
-		st2.Instances++
-		setT := map[string]bool{}
-		for _, s := range nt {
-			setT[s] = true
-		}
-		// timing has no code-object-version branch: compare emu's non-V5 branch with timing, and report the V5 branch separately
-		var emuV23, emuV5 []string
-		for _, s := range ne {
-			switch {
-			case strings.Contains(s, "[co.Version==insts.CodeObjectV5]"):
-				emuV5 = append(emuV5, strings.ReplaceAll(s, "[co.Version==insts.CodeObjectV5]", ""))
-			case strings.Contains(s, "[!co.Version==insts.CodeObjectV5]"):
-				emuV23 = append(emuV23, strings.ReplaceAll(s, "[!co.Version==insts.CodeObjectV5]", ""))
-			default:
-				emuV23 = append(emuV23, s)
-			}
-		}
-		var tV23, tV5 []string
-		for _, s := range nt {
-			switch {
-			case strings.Contains(s, "[co.Version==insts.CodeObjectV5]"):
-				tV5 = append(tV5, strings.ReplaceAll(s, "[co.Version==insts.CodeObjectV5]", ""))
-			case strings.Contains(s, "[!co.Version==insts.CodeObjectV5]"):
-				tV23 = append(tV23, strings.ReplaceAll(s, "[!co.Version==insts.CodeObjectV5]", ""))
-			default:
-				tV23 = append(tV23, s)
-			}
-		}
-		sort.Strings(emuV23)
-		sort.Strings(tV23)
-		okL := strings.Join(emuV23, ";") == strings.Join(tV23, ";")
-		st2.Ob(okL)
-		st2.Sample("lane ids (V2/V3): %v", emuV23)
-		if !okL {
-			c.Report(core.Finding{Rule: "R02.2", Pkg: cuPkg, Func: "WfDispatcherImpl.initRegisters", Detail: "lane-ids:v2v3", Pos: c.Position(ft.Pos()), Msg: fmt.Sprintf("work-item id registers are initialised differently: emu %v, timing %v", emuV23, tV23)})
-		}
-		st2.Instances++
-		sort.Strings(emuV5)
-		sort.Strings(tV5)
-		okV5 := strings.Join(emuV5, ";") == strings.Join(tV5, ";")
-		st2.Ob(okV5)
-		if !okV5 {
-			c.Report(core.Finding{Rule: "R02.2", Pkg: cuPkg, Func: "WfDispatcherImpl.initRegisters", Detail: "lane-ids:v5-packed", Pos: c.Position(ft.Pos()), Msg: fmt.Sprintf("for V5 code objects emulation packs the work-item ids into v0 (%v) but timing does %v: a 2-D/3-D CDNA3 kernel sees y = z = 0 in timing mode", emuV5, tV5)})
-		}
-	}
+	checkInitRegistersMirrored(c, "R02.2")
 
 	// ---------------- R02.3 memory-instruction coverage agrees ----------------
 	st3 := c.Rule("R02.3", "the scalar-memory opcodes executed by both ALUs equal those executed by the timing scalar unit; every FLAT opcode of the ALUs is accepted by the timing vector memory unit; every FLAT load whose emulation handler transforms the loaded bytes has a dedicated write-back case in timing", 4)
@@ -940,6 +840,11 @@ func runC02(c *core.Ctx) core.Meta {
 		}
 	}
 
+	// ---------------- R02.14 a wavefront retires only when its scalar loads have returned ----------------
+	// (c14.go, the check of R14.1) the return of a scalar load writes at the wavefront's SGPR offset
+	// whatever has become of the wavefront; emulation executes the load at once
+	checkEndPgmWaits(c, "R02.14")
+
 	// ---------------- R02.13 store data is merged lane by lane ----------------
 	st13 := c.Rule("R02.13", "the coalescer merges the data of a multi-dword store in the order the emulator writes it: lane by lane, each lane's dwords in register order. In every function of the compute unit that feeds store data into write requests (calls findOrCreateWriteReq), the loop over the lanes (bound 64) encloses the loop over the data registers. The emulator's flat_store_dwordx2/x3/x4 handlers write all bytes of lane i before lane i+1, so where the ranges of two active lanes overlap the higher lane wins; a register-major merge lets a lower lane's later register win and the final memory differs", 1)
 	{
@@ -1214,4 +1119,148 @@ func runC02(c *core.Ctx) core.Meta {
 		Explanation: "Necessary conditions of functional transparency of the timing mode, decided structurally: architectural state of timing wavefronts is changed only through the shared emulation ALU (who-may-call with a frozen allow-list), the initial-register code of the two modes is reduced to summaries (flag → reserved bytes → value; lane-id registers) that must be equal, the memory-instruction opcode sets of ALUs and timing units agree incl. write-back cases for transforming loads, cache flushes precede copies that touch dirty buffers, and the timing-only counters that make s_waitcnt / s_endpgm wait are decremented only for the last returning piece of an instruction (a fully masked memory instruction that decrements them lets a later consumer read its register before the data arrived).",
 		NotDecided:  "equality of final memory and PC traces (runtime quantities): coalescer / write-back value correctness, scoreboard hazards, caches and DRAM behaviour",
 		Assumptions: commonAssumptions}
+}
+
+// sgprABI: bytes of scalar registers each enabled system register occupies (HSA ABI for GCN3 /
+// CDNA code objects, in the order the hardware lays them out).
+var sgprABI = map[string]int64{
+	"EnableSgprPrivateSegmentBuffer":         16,
+	"EnableSgprDispatchPtr":                  8,
+	"EnableSgprQueuePtr":                     8,
+	"EnableSgprKernargSegmentPtr":            8,
+	"EnableSgprDispatchID":                   8,
+	"EnableSgprFlatScratchInit":              8,
+	"EnableSgprPrivateSegmentSize":           4,
+	"EnableSgprGridWorkgroupCountX":          4,
+	"EnableSgprGridWorkgroupCountY":          4,
+	"EnableSgprGridWorkgroupCountZ":          4,
+	"EnableSgprWorkGroupIDX":                 4,
+	"EnableSgprWorkGroupIDY":                 4,
+	"EnableSgprWorkGroupIDZ":                 4,
+	"EnableSgprWorkGroupInfo":                4,
+	"EnableSgprPrivateSegmentWaveByteOffset": 4,
+}
+
+// checkInitRegistersMirrored (R02.2, shared with C08 as R08.7): the two modes initialise a
+// wavefront's registers alike, and as the ABI lays them out.
+func checkInitRegistersMirrored(c *core.Ctx, rule string) {
+	st2 := c.Rule(rule, "the initial scalar-register layout (which enable flag reserves how many bytes and which value is written, in order) and the lane-id registers are the same in emu.ComputeUnit.initWfRegs and cu.WfDispatcherImpl.initRegisters", 15)
+	fe := findFuncDecl(c.Pkg(emuPkg), "ComputeUnit.initWfRegs")
+	ft := findFuncDecl(c.Pkg(cuPkg), "WfDispatcherImpl.initRegisters")
+	if fe == nil || ft == nil {
+		c.Report(core.Finding{Rule: rule, Kind: "anchor", Pkg: emuPkg, Func: "initWfRegs/initRegisters", Detail: "anchor", Msg: "initial-register functions not found"})
+	} else {
+		se, le := summariseInit(c.Pkg(emuPkg), fe)
+		stt, lt := summariseInit(c.Pkg(cuPkg), ft)
+		em := map[string]sgprStep{}
+		var order []string
+		for _, s := range se {
+			em[s.flag] = s
+			order = append(order, s.flag)
+		}
+		tm := map[string]sgprStep{}
+		var orderT []string
+		for _, s := range stt {
+			tm[s.flag] = s
+			orderT = append(orderT, s.flag)
+		}
+		abiSeen := 0
+		defer func() { st2.Sample("flags compared with the HSA ABI's register counts: %d", abiSeen) }()
+		st2.Instances++
+		okOrder := strings.Join(order, ",") == strings.Join(orderT, ",")
+		st2.Ob(okOrder)
+		if !okOrder {
+			c.Report(core.Finding{Rule: rule, Pkg: cuPkg, Func: "WfDispatcherImpl.initRegisters", Detail: "flag-order", Pos: c.Position(ft.Pos()), Msg: fmt.Sprintf("the two modes visit the enable flags in different orders: emu %v, timing %v", order, orderT)})
+		}
+		// the space a flag takes matters for what is laid out behind it
+		lastWritten := -1
+		for i, f := range order {
+			if em[f].value != "" || tm[f].value != "" {
+				lastWritten = i
+			}
+		}
+		for fi, f := range order {
+			e, t := em[f], tm[f]
+			st2.Instances++
+			if _, has := tm[f]; !has {
+				st2.Ob(false)
+				c.Report(core.Finding{Rule: rule, Pkg: cuPkg, Func: "WfDispatcherImpl.initRegisters", Detail: "flag-missing:" + f, Pos: c.Position(ft.Pos()), Msg: "emulation handles " + f + " but timing does not"})
+				continue
+			}
+			okR := e.reserved == t.reserved
+			st2.Ob(okR)
+			st2.Sample("%s: reserves %d bytes (emu) / %d bytes (timing); value %s / %s", f, e.reserved, t.reserved, e.value, t.value)
+			if !okR {
+				c.Report(core.Finding{Rule: rule, Pkg: cuPkg, Func: "WfDispatcherImpl.initRegisters", Detail: "reserve:" + f, Pos: c.Position(t.pos), Msg: fmt.Sprintf("%s reserves %d bytes of scalar registers in emulation but %d in timing: every later system register lands in a different SGPR in the two modes", f, e.reserved, t.reserved)})
+			}
+			if want, known := sgprABI[strings.TrimSuffix(strings.TrimPrefix(f, "co."), "()")]; known && fi < lastWritten {
+				abiSeen++
+				okA := e.reserved == want && t.reserved == want
+				st2.Ob(okA)
+				if !okA {
+					c.Report(core.Finding{Rule: rule, Pkg: cuPkg, Func: "WfDispatcherImpl.initRegisters", Detail: "abi-reserve:" + f, Pos: c.Position(t.pos), Msg: fmt.Sprintf("%s takes %d bytes of scalar registers in the HSA ABI; emulation reserves %d and timing %d: the work-group ids and counts behind it are read from the wrong SGPRs by the kernel", f, want, e.reserved, t.reserved)})
+				}
+			}
+			okV := e.value == t.value
+			st2.Ob(okV)
+			if !okV {
+				c.Report(core.Finding{Rule: rule, Pkg: cuPkg, Func: "WfDispatcherImpl.initRegisters", Detail: "value:" + f, Pos: c.Position(t.pos), Msg: fmt.Sprintf("%s writes %q in emulation but %q in timing", f, e.value, t.value)})
+			}
+		}
+		// lane ids
+		norm := func(l []string) []string {
+			var out []string
+			for _, s := range l {
+				out = append(out, s)
+			}
+			sort.Strings(out)
+			return out
+		}
+		ne, nt := norm(le), norm(lt)
+		st2.Instances++
+		setT := map[string]bool{}
+		for _, s := range nt {
+			setT[s] = true
+		}
+		// timing has no code-object-version branch: compare emu's non-V5 branch with timing, and report the V5 branch separately
+		var emuV23, emuV5 []string
+		for _, s := range ne {
+			switch {
+			case strings.Contains(s, "[co.Version==insts.CodeObjectV5]"):
+				emuV5 = append(emuV5, strings.ReplaceAll(s, "[co.Version==insts.CodeObjectV5]", ""))
+			case strings.Contains(s, "[!co.Version==insts.CodeObjectV5]"):
+				emuV23 = append(emuV23, strings.ReplaceAll(s, "[!co.Version==insts.CodeObjectV5]", ""))
+			default:
+				emuV23 = append(emuV23, s)
+			}
+		}
+		var tV23, tV5 []string
+		for _, s := range nt {
+			switch {
+			case strings.Contains(s, "[co.Version==insts.CodeObjectV5]"):
+				tV5 = append(tV5, strings.ReplaceAll(s, "[co.Version==insts.CodeObjectV5]", ""))
+			case strings.Contains(s, "[!co.Version==insts.CodeObjectV5]"):
+				tV23 = append(tV23, strings.ReplaceAll(s, "[!co.Version==insts.CodeObjectV5]", ""))
+			default:
+				tV23 = append(tV23, s)
+			}
+		}
+		sort.Strings(emuV23)
+		sort.Strings(tV23)
+		okL := strings.Join(emuV23, ";") == strings.Join(tV23, ";")
+		st2.Ob(okL)
+		st2.Sample("lane ids (V2/V3): %v", emuV23)
+		if !okL {
+			c.Report(core.Finding{Rule: rule, Pkg: cuPkg, Func: "WfDispatcherImpl.initRegisters", Detail: "lane-ids:v2v3", Pos: c.Position(ft.Pos()), Msg: fmt.Sprintf("work-item id registers are initialised differently: emu %v, timing %v", emuV23, tV23)})
+		}
+		st2.Instances++
+		sort.Strings(emuV5)
+		sort.Strings(tV5)
+		okV5 := strings.Join(emuV5, ";") == strings.Join(tV5, ";")
+		st2.Ob(okV5)
+		if !okV5 {
+			c.Report(core.Finding{Rule: rule, Pkg: cuPkg, Func: "WfDispatcherImpl.initRegisters", Detail: "lane-ids:v5-packed", Pos: c.Position(ft.Pos()), Msg: fmt.Sprintf("for V5 code objects emulation packs the work-item ids into v0 (%v) but timing does %v: a 2-D/3-D CDNA3 kernel sees y = z = 0 in timing mode", emuV5, tV5)})
+		}
+	}
+
 }
